@@ -103,15 +103,17 @@ func allChecksRaw() []*Check {
 			Files: files(filesProg, filesVFS, []string{"gtree/c03.go"}),
 			Quick: []Job{
 				gjf("C03.pairs.n5", "VerifC03", 5, "C03.add", "C03.text", "C03.text.ref", "C03.enc", "C03.walk", "C03.iter", "C03.alias.output", "C03.alias.walk", "C03.alias.iter"),
+				gjf("C03.pairs2.n4", "VerifC03", 14, "C03.add", "C03.fail.samewrites", "C03.fail.err", "C03.fail.out", "C03.dryrun.nil", "C03.dryrun"),
 				gjf("C03.reject.n3", "VerifC03Reject", 3, "C03.reject.err", "C03.reject.nowrite", "C03.reject.nocallback", "C03.reject.nofs"),
 				gjf("C03.bytes.n5", "VerifC03Bytes", 5, "C03.bytes.nil", "C03.bytes.text", "C03.bytes.ref"),
 			},
 			Thorough: []Job{
 				gjf("C03.bytes.n6", "VerifC03Bytes", 6, "C03.bytes.nil", "C03.bytes.text", "C03.bytes.ref"),
 				gjf("C03.pairs.n6", "VerifC03", 6, "C03.add", "C03.text", "C03.text.ref", "C03.enc", "C03.walk", "C03.iter", "C03.alias.output", "C03.alias.walk", "C03.alias.iter"),
+				gjf("C03.pairs2.n5", "VerifC03", 15, "C03.add", "C03.fail.samewrites", "C03.fail.err", "C03.fail.out", "C03.dryrun.nil", "C03.dryrun"),
 				gjf("C03.reject.n4", "VerifC03Reject", 4, "C03.reject.err", "C03.reject.nowrite", "C03.reject.nocallback", "C03.reject.nofs"),
 			},
-			Bounds: "programs of NewRoot + (N-1) Add calls (quick N=5, thorough N=6; N=7 ran clean once in 17 min) on solver-chosen parents with names that may coincide, optionally with a From-Root call between two Adds; operation pairs From-Root vs From-Markdown: text with 4 opaque branch strings, JSON/YAML/TOML records, callback walk facts, iterator walk; every deprecated alias next to its replacement; nil / non-root arguments on all 10 From-Root entry points. Byte level: programs of 5/6 nodes with concrete names and the four branch strings as 0..2 arbitrary ASCII bytes each (code that looks into the branch strings). mkdir/verify pairs are decided under C06/C08 (VerifC06Root, VerifC08 both families). Outside: names that are not single path elements (C07), massive mode (C10).",
+			Bounds: "programs of NewRoot + (N-1) Add calls (quick N=5, thorough N=6; N=7 ran clean once in 17 min) on solver-chosen parents with names that may coincide, optionally with a From-Root call between two Adds; operation pairs From-Root vs From-Markdown: text with 4 opaque branch strings, JSON/YAML/TOML records, callback walk facts, iterator walk (walks with 4 opaque branch strings as options); a writer that refuses write j and the dry-run report with 0..1 opaque extension (second job, N = 4 / 5); every deprecated alias next to its replacement; nil / non-root arguments on all 10 From-Root entry points. Byte level: programs of 5/6 nodes with concrete names and the four branch strings as 0..2 arbitrary ASCII bytes each (code that looks into the branch strings). mkdir/verify pairs are decided under C06/C08 (VerifC06Root, VerifC08 both families). Outside: names that are not single path elements (C07), massive mode (C10).",
 			Assume: append([]string{parseContract, pathContract, fsModel, encStub}, commonAssume...),
 		},
 		{
